@@ -672,7 +672,7 @@ def _sum(func, args, kwargs):
     conv = conv_for(m.dtype)
     p = apply1(conv, P(a))
     if isinstance(dim, (list, tuple)) and len(dim) == 0:
-        return Sym.make(p, m.dtype)
+        dim = None          # torch.sum with an empty dim list reduces over ALL dimensions (it is not the identity)
     out = reduce_payload(p, dims_of(dim, p.ndim), keepdim, t_sum, conv(0))
     return Sym.make(out.reshape(tuple(m.shape)), m.dtype)
 
